@@ -903,6 +903,10 @@ func TestRunnerHistories(t *testing.T) {
 					i = hi
 				}
 				h.cert(uint64(i))
+			case x < 24 && !h.hold && func() bool { _, ok := h.decEnd[h.run.Progress().ID]; return ok }() && latestOf(h.cs) < int64(h.run.Progress().ID):
+				// the node has announced its decision but not yet terminated: the others' certificate for the same
+				// instance (same value) reaches the store first; the node's own decision then finds it there
+				h.put(1)
 			case x < 16:
 				h.stall = 2 + rng.Intn(6) // EC stops producing for a while: base decisions follow
 				h.tick(h.now + int64(rng.Intn(int(s.Period))))
@@ -1119,7 +1123,7 @@ func (h *loopH) lstep(now int64, ncerts int, kind string, first string) {
 		"out": outs, "o": h.lobs()})
 }
 
-func (h *loopH) publish(msg *gpbft.GMessage) {
+func (h *loopH) publish(msg *gpbft.GMessage) (validated bool) {
 	enc := encoding.NewCBOR[*gpbft.PartialGMessage]()
 	data, err := enc.Encode(&gpbft.PartialGMessage{GMessage: msg})
 	if err != nil {
@@ -1138,6 +1142,7 @@ func (h *loopH) publish(msg *gpbft.GMessage) {
 	}
 	// ... then forwarded to the loop's message queue; give that hand-over time (being late only weakens the probe)
 	time.Sleep(40 * time.Millisecond)
+	return h.w.ver.saw(msg.Signature)
 }
 
 // fenceMsg: a QUALITY vote of identity 3 for an instance a few ahead.  Messages are served in the order they were
@@ -1214,11 +1219,11 @@ func (h *loopH) prio1() {
 	}
 	from := h.lastEp
 	h.lastEp = to
-	h.publish(h.w.decideMsg(k, from, to, 0, h.nextNonce()))
+	ok := h.publish(h.w.decideMsg(k, from, to, 0, h.nextNonce()))
 	h.publish(h.w.fenceMsg(k+3, to, h.nextNonce()))
 	h.backend.release <- struct{}{}
 	first := "unknown"
-	if h.served(k + 3) {
+	if h.served(k+3) && ok {
 		// the DECIDE vote for k has been served: dropped as old (the certificate came first) or received by instance k
 		first = "msg"
 		if h.hl.has(fmt.Sprintf("dropping message from old instance %d ", k)) {
@@ -1261,11 +1266,11 @@ func (h *loopH) prio2() {
 	case <-time.After(60 * time.Second):
 		h.t.Fatalf("prio2: the loop did not take the certificate")
 	}
-	h.publish(h.w.decideMsg(k+1, to, to, 0, h.nextNonce()))
+	ok := h.publish(h.w.decideMsg(k+1, to, to, 0, h.nextNonce()))
 	h.publish(h.w.fenceMsg(k+4, to, h.nextNonce()))
 	h.backend.release <- struct{}{}
 	first := "unknown"
-	if h.served(k+4) && h.run.Begun() && h.run.Progress().ID == k+1 {
+	if h.served(k+4) && ok && h.run.Begun() && h.run.Progress().ID == k+1 {
 		// the start computed for k+1 was due and the DECIDE vote for k+1 has been served: queued and handed over when
 		// the instance began (the message came first), or received by the running instance
 		first = "alarm"
